@@ -8,7 +8,7 @@
    is checked by the decode oracle. *)
 From VF Require Import Base.Prelude Gen.Enums Gen.Configs Gen.Registry Gen.Checks
      Gen.MatDesc Gen.InstChecks Model.Graph Model.Perform Spec.WF Proofs.ListFacts
-     Proofs.PerformStep Proofs.ModeProofs Proofs.SharingProofs Proofs.UntouchedProofs.
+     Model.Plan Proofs.PerformStep Proofs.ModeProofs Proofs.SharingProofs Proofs.UntouchedProofs Proofs.SharingScan.
 
 (* two users of a constant buffer that pass the check either both keep the
    float bytes or both rewrite them with EQUAL parameters: a float consumer
@@ -116,6 +116,30 @@ Proof.
   - destruct Q1 as (_ & _ & _ & _ & C1). rewrite Hu in C1. exact (proj2 C1).
 Qed.
 Print Assumptions C15_sharers_quantized_in_place_agree.
+
+(* the buffer-sharing check visits everything: every operand occurrence of
+   every operator is listed under its buffer, and when the check returns, the
+   first listed user of each constant buffer and EVERY other listed user
+   passed the compatibility predicate (no group skipped, no member skipped) *)
+Theorem C15_every_operand_is_listed_under_its_buffer :
+  forall m g o x t,
+    In g (m_subgraphs m) -> In o (sg_ops g) -> In x (o_outs o ++ o_ins o) -> x <> -1 ->
+    nthZ (sg_tensors g) x = Some t ->
+    exists ns, In (t_buf t, ns) (buffer_groups m) /\ In (tname t) ns.
+Proof. exact buffer_groups_lists_every_operand. Qed.
+Print Assumptions C15_every_operand_is_listed_under_its_buffer.
+
+Theorem C15_check_visits_every_group_and_member :
+  forall bufs cls m rs,
+    check_buffer_sharing_with bufs cls m rs = Ok tt ->
+    forall b first second rest v n,
+      In (b, first :: second :: rest) (buffer_groups m) ->
+      nthZ bufs b = Some (BOrig v) ->
+      In n (second :: rest) ->
+      exists p1 p2, find_plan rs first = Ok p1 /\ find_plan rs n = Ok p2 /\
+                    compatible_ttp (to_ttp cls p1) (to_ttp cls p2) = Ok true.
+Proof. exact check_buffer_sharing_visits_all. Qed.
+Print Assumptions C15_check_visits_every_group_and_member.
 
 Example C15_nonvacuous :
   match quantize_tensor [BEmpty; BOrig 1] ex_g 0 (Some ex_p) with
